@@ -871,8 +871,8 @@ class Knobs:
         self.p_comment_body = 0.08
         self.p_loop_use = 0.65
         self.enable_loop = True
+        self.multi_except = True      # several `% except` clauses (repaired in /repo by 1cb10d7)
         # shapes that hit recorded findings: off in the main streams, on in the `quirks` stream
-        self.multi_except = False
         self.silent_suite = False
         self.ret_in_buffered = False
         self.loop_only_in_closure = False
@@ -1090,7 +1090,7 @@ class Gen:
             return ["while", r.randint(0, 14), self.body(sc.sub(depth=d, in_loop=True)), self.opts(2)]
         if k == "try":
             nh = 1
-            if self.k.multi_except and r.random() < 0.6:
+            if self.k.multi_except and not self.k.lowerable and r.random() < 0.35:
                 nh = r.choice([2, 2, 3])
             handlers = []
             for hi in range(nh):
